@@ -1,10 +1,75 @@
-(* Property C13 -- statements only (proofs in Proofs/ExecProofs.v). *)
-From Coq Require Import List String.
-From GQL Require Import Exec.Syntax Exec.Coerce Exec.Exec Exec.Request Proofs.ExecProofs.
+(* Property C13 -- top-level mutation fields execute serially in document order.
+   Statements only; proofs in Proofs/ExecInv.v and Proofs/ExecSerial.v.
+   The executor model (Exec/Exec.v) defers thunk outcomes at nullable positions and forces them in a
+   dethunk pass, as plan.go does; for a mutation each top-level field is forced completely before
+   the next one starts (fix 8600d4d).  st_calls is the list of resolver invocations in execution
+   order, including those made while deferred values are forced. *)
+From Coq Require Import List String Bool NArith.
+From GQL Require Import Exec.Syntax Exec.Coerce Exec.Exec Exec.Request Run.ExecRun
+     Proofs.ExecInv Proofs.ExecSerial.
 Import ListNotations.
+Open Scope string_scope.
+Open Scope list_scope.
 
-(* A failure is absorbed exactly at nullable positions: completing at a nullable type never raises. *)
-Theorem C13_catch_nullable : forall t r, is_nonnull t = false ->
-  forall e s, catch_at t r <> XRaise e s.
-Proof. exact catch_at_nullable. Qed.
-Print Assumptions C13_catch_nullable.
+(* For every schema, document, variables, resolver outcomes (values, errors, panics, thunks at any
+   level) and fuel: in a mutation, the resolver invocations never return to an earlier top-level
+   field -- everything of field i (its resolver, its sub-selection's resolvers, what it deferred)
+   precedes everything of field j > i.  serial_ok is the predicate the runner evaluates on the
+   implementation's own event log. *)
+Theorem C13_serial : forall fuel S D opn inputs root or tor data s,
+  is_mutation D opn = true ->
+  request fuel S D opn inputs root or tor = RDone data s ->
+  serial_ok (root_keys fuel S D opn inputs) (map c_path (st_calls s)) = true.
+Proof. exact mutation_calls_serial. Qed.
+Print Assumptions C13_serial.
+
+(* At every level, for queries too: the invocations made for a selection set at path p are
+   segmented by response key in collection order. *)
+Theorem C13_segmented : forall fuel E obj src g p s,
+  match exec_groups fuel E obj src g p s with
+  | XOk _ s' | XRaise _ s' =>
+    exists cs, st_calls s' = st_calls s ++ cs /\ Seg p (map fst g) (map c_path cs)
+  | XFuel => True
+  end.
+Proof. exact groups_seg. Qed.
+Print Assumptions C13_segmented.
+
+(* Forcing deferred values never raises and leaves nothing deferred. *)
+Theorem C13_dethunk_total : forall fuel E q s p, thunks_ok p q ->
+  match dethunk fuel E q s with
+  | XOk q' s' => ext p s s' /\ thunks q' = []
+  | XRaise _ _ => False
+  | XFuel => True
+  end.
+Proof. intros fuel E q s p H. exact (proj2 (proj2 (proj2 (exec_inv fuel))) E q s p H). Qed.
+Print Assumptions C13_dethunk_total.
+
+(* ---- non-vacuity: a mutation with two top-level fields whose first field defers a value that
+        resolves a nested field when forced ---- *)
+Definition S13 : schema := {|
+  s_types := [("String", TScalar SString);
+              ("O", TObject [{| f_name := "x"; f_args := []; f_type := TNamed "String" |}] []);
+              ("Q", TObject [] []);
+              ("M", TObject [{| f_name := "a"; f_args := []; f_type := TNamed "O" |};
+                             {| f_name := "b"; f_args := []; f_type := TNamed "String" |}] [])];
+  s_query := "Q"; s_mutation := Some "M" |}.
+Definition D13 : document := {|
+  d_ops := [{| o_kind := OpMutation; o_name := None; o_vars := [];
+               o_sel := [SField 11%N None "a" [] [] [SField 15%N None "x" [] [] []]; SField 21%N None "b" [] [] []] |}];
+  d_frags := [] |}.
+Definition or13 : oracle := fun p =>
+  match p with
+  | [PKey "a"] => Some (OThunk (OVal (RObj 1%N "O")))
+  | [PKey "a"; PKey "x"] => Some (OVal (RStr "x"))
+  | [PKey "b"] => Some (OVal (RStr "b"))
+  | _ => None
+  end.
+
+Example C13_nonvacuous :
+  match request 20 S13 D13 None [] (RObj 0%N "root") or13 (fun _ => None) with
+  | RDone (Some d) s =>
+    map c_path (st_calls s) = [[PKey "a"]; [PKey "a"; PKey "x"]; [PKey "b"]] /\
+    d = PObj [("a", PObj [("x", PLeaf (JStr "x"))]); ("b", PLeaf (JStr "b"))]
+  | _ => False
+  end.
+Proof. vm_compute. split; reflexivity. Qed.
